@@ -650,3 +650,286 @@ Section AgreeTerm.
       rewrite (In_str_in _ _ (stmt_kw_in arm Hlt)), (IHx _ eq_refl Hnx), (IHy _ eq_refl Hny). reflexivity.
   Qed.
 End AgreeTerm.
+
+(* ================================================================================== *)
+(* 5. folding the lexical reading of a surface tree gives its documented meaning        *)
+(* ================================================================================== *)
+(* static (format-independent) facts of the regenerated tables; an edited table makes these fail *)
+Lemma term_eqb_placeholder x : term_eqb x placeholder = is_placeholder x.
+Proof. destruct x as [| c | | | | | |]; try reflexivity. destruct c; reflexivity. Qed.
+Lemma setnamek_name_replace c : setnamek_name c = SnReplace.
+Proof. destruct c; reflexivity. Qed.
+Lemma setnamek_num_parse c : setnamek_num c = SnParseUInt.
+Proof. destruct c; reflexivity. Qed.
+Lemma fillk_img_image c : fillk_img c = FillImage.
+Proof. destruct c; reflexivity. Qed.
+(* the enum parser's unit arms are keyed by the prefix the fold exempts from its empty-name check *)
+Lemma unit_arms_exempt :
+  Forall (fun gi => match snd gi with AIUnit _ => fold_atom_empty_name_exempt = Some (fst gi) | _ => True end) parse_atom_arms.
+Proof. repeat constructor. Qed.
+
+(* the enum parser's placeholder search (by ==) and the fold's (by pattern) find the same position *)
+Lemma split_to_terms l : forall i j r,
+  split_placeholder i l = Some (j, r) -> to_terms_with_image i l = (Some j, r).
+Proof.
+  induction l as [|x l IH]; intros i j r; cbn [split_placeholder to_terms_with_image]; [discriminate|].
+  rewrite term_eqb_placeholder. destruct (is_placeholder x).
+  - intros H. injection H as <- <-. reflexivity.
+  - destruct (split_placeholder (i + 1) l) as [[j' r']|] eqn:Hs; [|discriminate].
+    intros H. injection H as <- <-. now rewrite (IH _ _ _ Hs).
+Qed.
+
+Section FoldTree.
+  Variable E : efmt.
+  Hypothesis Hd : fold_kw_distinct E = true.
+
+  Lemma fold_atom_arm g init name v :
+    In (g, init) parse_atom_arms -> atom_value init name = Some v -> fold_atom E (g E) name = FOk v.
+  Proof.
+    intros Hin Hv.
+    pose proof atom_arms_parser_to_fold as Hpf. rewrite Forall_forall in Hpf. destruct (Hpf _ Hin) as [a [Ha Hm]].
+    cbn [fst snd] in Ha, Hm. pose proof (fold_atom_kw E Hd _ _ Ha) as Hfirst.
+    pose proof unit_arms_exempt as Hex. rewrite Forall_forall in Hex. specialize (Hex _ Hin). cbn [fst snd] in Hex.
+    unfold fold_atom. destruct init as [c|c|c]; destruct a as [c'|c'|c']; cbn [atom_match] in Hm; try discriminate.
+    - apply name_ctor_eqb_eq in Hm. subst c'. cbn [atom_value atom_of_init] in Hv.
+      destruct name as [|x n]; [discriminate|]. unfold set_atom_name in Hv. cbn [setnamek_of] in Hv.
+      rewrite setnamek_name_replace in Hv. injection Hv as <-.
+      destruct fold_atom_empty_name_exempt; now rewrite Hfirst.
+    - apply unit_ctor_eqb_eq in Hm. subst c'. cbn [atom_value] in Hv. injection Hv as <-.
+      rewrite Hex. destruct name; [rewrite str_eqb_refl; cbn [negb]|]; now rewrite Hfirst.
+    - apply num_ctor_eqb_eq in Hm. subst c'. cbn [atom_value atom_of_init] in Hv.
+      destruct name as [|x n]; [discriminate|]. unfold set_atom_name in Hv. cbn [setnamek_of] in Hv.
+      rewrite setnamek_num_parse in Hv.
+      destruct fold_atom_empty_name_exempt; rewrite Hfirst; destruct (read_usize (x :: n)); try discriminate;
+        injection Hv as <-; reflexivity.
+  Qed.
+
+  Lemma fold_compound_arm g init ts v :
+    In (g, init) parse_compound_arms -> fill_pure init ts = Some v -> fold_compound E (g E) ts = FOk v.
+  Proof.
+    intros Hin Hv.
+    pose proof compound_arms_parser_to_fold as Hpf. rewrite Forall_forall in Hpf. destruct (Hpf _ Hin) as [a [Ha Hm]].
+    cbn [fst snd] in Ha, Hm. unfold fold_compound. rewrite (fold_compound_kw E Hd _ _ Ha).
+    unfold fill_pure in Hv.
+    destruct init as [c|c|c|c|c]; destruct a as [c'|c'|c'|c'|c']; cbn [comp_match] in Hm; try discriminate;
+      cbn [comp_fill_kind comp_initial] in Hv.
+    - apply set_ctor_eqb_eq in Hm. subst c'. destruct (fillk_set c); try discriminate.
+      unfold push_components in Hv. cbn [pushk_of] in Hv. destruct (pushk_set c); try discriminate. now injection Hv as <-.
+    - apply vec_ctor_eqb_eq in Hm. subst c'. destruct (fillk_vec c); try discriminate.
+      unfold push_components in Hv. cbn [pushk_of] in Hv. destruct (pushk_vec c); try discriminate. now injection Hv as <-.
+    - apply img_ctor_eqb_eq in Hm. subst c'. rewrite fillk_img_image in Hv.
+      destruct (split_placeholder 0 ts) as [[idx rest]|] eqn:Hs; [|discriminate]. injection Hv as <-.
+      unfold to_image_with_placeholder. pose proof (split_to_terms _ _ _ _ Hs) as Ht. rewrite Ht.
+      apply new_image_no_panic; [exact fold_static_ok_true|]. apply to_terms_with_image_index in Ht. lia.
+    - apply box1_ctor_eqb_eq in Hm. subst c'. destruct (fillk_box1 c); try discriminate.
+      + destruct ts as [|x [|y ts]]; try discriminate. now injection Hv as <-.
+      + unfold push_components in Hv. cbn [pushk_of] in Hv. destruct (pushk_box1 c); discriminate.
+    - apply box2_ctor_eqb_eq in Hm. subst c'. destruct (fillk_box2 c); try discriminate.
+      + destruct ts as [|x [|y [|z ts]]]; try discriminate. now injection Hv as <-.
+      + unfold push_components in Hv. cbn [pushk_of] in Hv. destruct (pushk_box2 c); discriminate.
+  Qed.
+
+  Lemma fold_statement_arm g b s p :
+    In (g, b) parse_statement_arms -> fold_statement E s (g E) p = FOk (build_statement b s p).
+  Proof.
+    intros Hin.
+    pose proof statement_arms_parser_to_fold as Hpf. rewrite Forall_forall in Hpf. destruct (Hpf _ Hin) as [b' [Hb Hm]].
+    cbn [fst snd] in Hb, Hm. rewrite (fold_statement_kw E Hd _ _ s p Hb). f_equal.
+    destruct b as [c|h]; destruct b' as [c'|h']; cbn [stmt_match] in Hm; try discriminate.
+    - apply box2_ctor_eqb_eq in Hm. now subst.
+    - destruct h, h'; try discriminate; reflexivity.
+  Qed.
+
+  Lemma fold_terms_omap items vs :
+    Forall (fun t => forall v, odesugar t = Some v -> fold_term E (lex_tree E t) = FOk v) items ->
+    omap odesugar items = Some vs -> fold_terms E (map (lex_tree E) items) = FOk vs.
+  Proof.
+    intros HF. revert vs. induction HF as [|x l Hx _ IH]; intros vs Ho.
+    - cbn [omap] in Ho. injection Ho as <-. reflexivity.
+    - rewrite omap_cons in Ho. destruct (odesugar x) as [v|] eqn:Hv; [|discriminate].
+      destruct (omap odesugar l) as [ys|]; [|discriminate]. injection Ho as <-.
+      cbn [map]. rewrite fold_terms_cons, (Hx v eq_refl). cbn [fbind]. rewrite (IH ys eq_refl). reflexivity.
+  Qed.
+
+  (* C03, fold third, for EVERY surface tree (plain or derived copulas, images, intervals, placeholders
+     with trailing text): folding its lexical reading returns its documented meaning *)
+  Theorem fold_lex_tree : forall t v, odesugar t = Some v -> fold_term E (lex_tree E t) = FOk v.
+  Proof.
+    induction t as [arm name|ext a g items b IH|arm a g items b IH|arm a b c d x y IHx IHy] using sterm_ind';
+      intros v Hv; cbn [lex_tree].
+    - rewrite odesugar_atom in Hv. rewrite fold_term_atom. unfold atom_prefix.
+      destruct (nth_error parse_atom_arms arm) as [[p init]|] eqn:Harm; [|discriminate].
+      apply (fold_atom_arm p init); [exact (nth_error_In _ _ Harm) | exact Hv].
+    - rewrite odesugar_set in Hv. destruct (omap odesugar items) as [[|v0 vs]|] eqn:Ho; try discriminate.
+      injection Hv as <-. rewrite fold_term_set, (fold_terms_omap _ _ IH Ho). cbn [fbind].
+      destruct ext; cbn [set_lb set_rb].
+      + exact (fold_set_kw E Hd _ _ _ _ arm_set_extension).
+      + exact (fold_set_kw E Hd _ _ _ _ arm_set_intension).
+    - rewrite odesugar_comp in Hv. unfold comp_kw.
+      destruct (nth_error parse_compound_arms arm) as [[kw init]|] eqn:Harm; [|discriminate].
+      destruct (omap odesugar items) as [[|v0 vs]|] eqn:Ho; try discriminate.
+      rewrite fold_term_compound, (fold_terms_omap _ _ IH Ho). cbn [fbind].
+      apply (fold_compound_arm kw init); [exact (nth_error_In _ _ Harm) | exact Hv].
+    - rewrite odesugar_stmt in Hv. unfold stmt_kw.
+      destruct (nth_error parse_statement_arms arm) as [[kw bd]|] eqn:Harm; [|discriminate].
+      destruct (odesugar x) as [vx|] eqn:Hx; [|discriminate]. destruct (odesugar y) as [vy|] eqn:Hy; [|discriminate].
+      injection Hv as <-. rewrite fold_term_statement, (IHx _ eq_refl), (IHy _ eq_refl). cbn [fbind].
+      apply fold_statement_arm. exact (nth_error_In _ _ Harm).
+  Qed.
+End FoldTree.
+
+(* ================================================================================== *)
+(* 6. the agreement theorems                                                            *)
+(* ================================================================================== *)
+(* all table conditions: E and L are same-named (agree_ok), the enum term parser's decision points are
+   unambiguous (parse_ok), the lexical term layer's are (lex_term_ok), the fold's keywords are distinct *)
+Definition agree_all (ia : N -> bool) (E : efmt) (L : lfmt) : bool :=
+  agree_ok ia E L && parse_ok E && lex_term_ok L ia && fold_kw_distinct E.
+
+Lemma forallb_ext_In {A} (f g : A -> bool) l : (forall x, In x l -> f x = g x) -> forallb f l = forallb g l.
+Proof.
+  induction l as [|x l IH]; intros H; cbn [forallb]; [reflexivity|].
+  rewrite (H x (or_introl eq_refl)), IH; [reflexivity|]. intros y Hy. apply H. now right.
+Qed.
+
+Lemma names_ok_respace ia E n : forall t, names_ok ia E (respace n t) = names_ok ia E t.
+Proof.
+  induction t as [arm name|ext a g items b IH|arm a g items b IH|arm a b c d x y IHx IHy] using sterm_ind';
+    cbn [respace names_ok]; try reflexivity.
+  - rewrite forallb_map. apply forallb_ext_In. rewrite Forall_forall in IH. exact IH.
+  - rewrite forallb_map. apply forallb_ext_In. rewrite Forall_forall in IH. exact IH.
+  - now rewrite IHx, IHy.
+Qed.
+
+Lemma respace_respace n m : forall t, respace n (respace m t) = respace n t.
+Proof.
+  induction t as [arm name|ext a g items b IH|arm a g items b IH|arm a b c d x y IHx IHy] using sterm_ind';
+    cbn [respace]; try reflexivity.
+  - f_equal. rewrite map_map. apply map_ext_in. rewrite Forall_forall in IH. exact IH.
+  - f_equal. rewrite map_map. apply map_ext_in. rewrite Forall_forall in IH. exact IH.
+  - now rewrite IHx, IHy.
+Qed.
+
+Lemma odesugar_respace n t : odesugar (respace n t) = odesugar t.
+Proof. apply same_shape_meaning. apply same_shape_respace. Qed.
+
+Lemma idealize_length C s : (length (idealize_env C s) <= length s)%nat.
+Proof. unfold idealize_env. destruct (l_remove_spaces_before_parse (c_fmt C)); [apply filter_length_le | lia]. Qed.
+
+Section Agreement.
+  Variable F : Type.
+  Variable ia : N -> bool.
+  Variable E : efmt.
+  Variable L : lfmt.
+  Hypothesis Hall : agree_all ia E L = true.
+
+  Lemma all_parts : agree_ok ia E L = true /\ parse_ok E = true /\ lex_term_ok L ia = true /\ fold_kw_distinct E = true.
+  Proof. pose proof Hall as H. unfold agree_all in H. rewrite !andb_true_iff in H. tauto. Qed.
+
+  Lemma all_total : total_ok E = true.
+  Proof.
+    destruct all_parts as (_ & H & _). exact (pk_total E H).
+  Qed.
+
+  (* (lexical) -- for EVERY text whose whitespace-free form is that of t *)
+  Theorem lex_parse_term_tree t v s :
+    odesugar t = Some v -> SstOk.unamb ia E (respace 0 t) [] = true ->
+    idealize_env (compile L) s = render E (respace 0 t) ->
+    lex_parse_term ia L s = LOk (lex_tree E t).
+  Proof.
+    intros Hv Hu Hs. destruct all_parts as (Hag & _ & Hlt & _).
+    pose proof (odesugar_tree_ok _ _ Hv) as Hshape.
+    assert (Hn : names_ok ia E t = true).
+    { rewrite <- (names_ok_respace ia E 0). exact (unamb_names ia E _ _ _ Hu). }
+    unfold lex_parse_term, lex_parse_term_fuel. rewrite Hs, (render_respace0 ia E L Hag t Hshape).
+    rewrite <- (app_nil_r (f0 L (lex_tree E t))).
+    rewrite (segment_term_f0_2 L ia Hlt (lex_tree E t) [] (lex_fuel s)); [reflexivity| | |reflexivity|].
+    - exact (lex_tree_ok ia E L Hag all_total t v Hv Hn).
+    - exact (lex_unamb_of_enum ia E L Hag t [] [] Hshape Hu).
+    - rewrite app_nil_r, <- (render_respace0 ia E L Hag t Hshape), <- Hs. unfold lex_fuel.
+      pose proof (idealize_length (compile L) s). lia.
+  Qed.
+
+  (* step 4 of the plan: the text of t itself, with its own spacing *)
+  Corollary lex_parse_term_render t v :
+    odesugar t = Some v -> SstOk.unamb ia E (respace 0 t) [] = true ->
+    lex_parse_term ia L (render E t) = LOk (lex_tree E t).
+  Proof.
+    intros Hv Hu. destruct all_parts as (Hag & _). apply (lex_parse_term_tree t v); auto.
+    apply (idealize_render ia E L Hag). rewrite <- (names_ok_respace ia E 0). exact (unamb_names ia E _ _ _ Hu).
+  Qed.
+
+  (* (lexical + fold) *)
+  Theorem lex_then_fold_tree t v s :
+    odesugar t = Some v -> SstOk.unamb ia E (respace 0 t) [] = true ->
+    idealize_env (compile L) s = render E (respace 0 t) ->
+    lex_then_fold ia L E s = FOk v.
+  Proof.
+    intros Hv Hu Hs. destruct all_parts as (_ & _ & _ & Hd). unfold lex_then_fold.
+    rewrite (lex_parse_term_tree t v s Hv Hu Hs). cbn [lres_fold]. now apply fold_lex_tree.
+  Qed.
+
+  (* (enum) -- restated from Proofs/EnumTermCor.v for a fresh parser state on exactly the text of t *)
+  Theorem enum_parse_term_tree t v :
+    odesugar t = Some v -> SstOk.unamb ia E t [] = true ->
+    parse_term F ia E (new_state F (render E t)) =
+    POk v (step F (length (render E t)) (new_state F (render E t))).
+  Proof.
+    intros Hv Hu. destruct all_parts as (_ & Hp & _).
+    apply (parse_term_render F ia E Hp t v [] _ _ Hv Hu (wf_new_state F _)). cbn [new_state s_rest]. now rewrite app_nil_r.
+  Qed.
+
+  (* C03 for terms: BOTH pipelines return the documented meaning of the tree, whatever its spacing *)
+  Theorem agree_term t v :
+    odesugar t = Some v -> SstOk.unamb ia E t [] = true -> SstOk.unamb ia E (respace 0 t) [] = true ->
+    parse_term F ia E (new_state F (render E t)) =
+      POk v (step F (length (render E t)) (new_state F (render E t))) /\
+    lex_then_fold ia L E (render E t) = FOk v.
+  Proof.
+    intros Hv Hu Hu0. split; [now apply enum_parse_term_tree|]. destruct all_parts as (Hag & _).
+    apply (lex_then_fold_tree t v); auto.
+    apply (idealize_render ia E L Hag). rewrite <- (names_ok_respace ia E 0). exact (unamb_names ia E _ _ _ Hu0).
+  Qed.
+
+  (* ... hence they agree (of_door: POk v _ => FOk v, PErr => FErr, otherwise FPanic) *)
+  Corollary agree_term_eq t v :
+    odesugar t = Some v -> SstOk.unamb ia E t [] = true -> SstOk.unamb ia E (respace 0 t) [] = true ->
+    of_door F (parse_term F ia E (new_state F (render E t))) = lex_then_fold ia L E (render E t).
+  Proof. intros Hv Hu Hu0. destruct (agree_term t v Hv Hu Hu0) as [-> ->]. reflexivity. Qed.
+
+  (* C09, both pipelines: n spaces at every token boundary (n = 0: all spaces removed) *)
+  Corollary agree_term_respace n t v :
+    odesugar t = Some v -> SstOk.unamb ia E (respace n t) [] = true -> SstOk.unamb ia E (respace 0 t) [] = true ->
+    parse_term F ia E (new_state F (render E (respace n t))) =
+      POk v (step F (length (render E (respace n t))) (new_state F (render E (respace n t)))) /\
+    lex_then_fold ia L E (render E (respace n t)) = FOk v.
+  Proof.
+    intros Hv Hu Hu0. apply agree_term; [now rewrite odesugar_respace | exact Hu | now rewrite respace_respace].
+  Qed.
+
+  (* C09, lexical pipeline, Unicode clause: any text obtained from the space-free text of t by inserting
+     White_Space characters ANYWHERE the filter removes them -- between tokens in particular -- is read
+     as t.  ([idealize_insert_ws]: inserting a whitespace string w anywhere leaves idealize_env unchanged.) *)
+  Corollary lex_then_fold_ws t v a b w :
+    odesugar t = Some v -> SstOk.unamb ia E (respace 0 t) [] = true ->
+    render E (respace 0 t) = a ++ b -> allws L w = true ->
+    lex_then_fold ia L E (a ++ w ++ b) = FOk v.
+  Proof.
+    intros Hv Hu Hab Hw. destruct all_parts as (Hag & _). apply (lex_then_fold_tree t v); auto.
+    rewrite (idealize_insert_ws ia E L Hag a w b Hw), <- Hab.
+    rewrite <- (respace_respace 0 0 t) at 2. apply (idealize_render ia E L Hag).
+    exact (unamb_names ia E _ _ _ Hu).
+  Qed.
+
+  (* the formatter's own output: t := the canonical surface tree of a well-formed enum term *)
+  Corollary agree_term_fmt x :
+    fmt_space_ok E = true -> arms_cover E = true ->
+    wf_term ia E x = true ->
+    SstOk.unamb ia E (sst E x) [] = true -> SstOk.unamb ia E (respace 0 (sst E x)) [] = true ->
+    parse_term F ia E (new_state F (fmt_term E x)) =
+      POk x (step F (length (fmt_term E x)) (new_state F (fmt_term E x))) /\
+    lex_then_fold ia L E (fmt_term E x) = FOk x.
+  Proof.
+    intros Hsp Hcov Hw Hu Hu0. destruct (sst_spec ia E Hsp Hcov x Hw) as (_ & Hd & ->). now apply agree_term.
+  Qed.
+End Agreement.
